@@ -19,6 +19,8 @@ class Scen(CoreScenario):
     def on_elab_error(self, e):
         if self.cfg.get("inject"):
             self.hit("rejected_" + self.cfg["inject"])
+            if " levels deep in " in self.cfg.get("inject_desc", ""):
+                self.hit("rejected_rdep_conflict_with_direct_parent_at_nesting_depth_2_or_3")
             self.visit(("rejected", self.cfg["inject"], type(e).__name__), nontrivial=True)
             self.notes["rejected_with"] = f"{type(e).__name__}: {str(e)[:200]}"
             return True
@@ -45,10 +47,11 @@ class Prop(CoreProp):
             "defect chosen by the seed from {double call of an exclusive method on a non-exclusive path (same body / two chains / "
             "parallel Ifs / calls that are only disabled by enable_call), method calling itself (directly / through a chain / through "
             "an alias), priority 2- and 3-cycles, second caller of a single_caller method, transaction ready-dependent on a "
-            "transaction it conflicts with (nested / explicit)} (must be rejected); distinct = distinct (program shape, verdict); "
+            "transaction it conflicts with (nested once / nested 2-3 levels deep and conflicting with its direct parent only / explicit)} (must be rejected); distinct = distinct (program shape, verdict); "
             "every run is non-trivial")
     expected_cov = ["accepted_well_formed", "design_exclusive_method_called_in_several_alternatives",
-                    "design_nonexclusive_method_called_repeatedly_on_one_path"] + ["rejected_" + k for k in KINDS]
+                    "design_nonexclusive_method_called_repeatedly_on_one_path"] + ["rejected_" + k for k in KINDS] + \
+                   ["rejected_rdep_conflict_with_direct_parent_at_nesting_depth_2_or_3"]
     search_space = "generated programs x one injected well-formedness defect"
     technique = ("seeded program generation with design-level fault injection (one well-formedness defect per run); verdict = "
                  "elaboration accepts / rejects; elaboration-time only, no simulated time")
